@@ -30,6 +30,9 @@ package main
 //	(`leaves 0 <tag>` + `compute` is ComputeTree of the empty list.)  Panics are recovered per op.  A panic is an
 //	oracle failure only inside the property's domain (tree of >= 1 leaves, 0 <= idx < n, non-nil path); outside it
 //	is an observation compared with the checked Lean model (`Verif.Model.MerkleChecked`).
+//	badload <m>             mt.SetTree(m, copy of mt.GetTree()) on the SAME populated object with a wrong leaf
+//	                        count: must be rejected and must change nothing       -> err | ok
+//	reload                  mt.SetTree(n, copy of mt.GetTree()) on the SAME object (must succeed)  -> ok | err
 //	export                  e_k := GetTree() (the slice itself, NOT copied), with the root, leaves and paths of
 //	                        the tree at this moment recorded                  -> ok <k>
 //	recompute <n> <tag>     ComputeTree of n fresh leaves on the SAME MerkleTree object  -> as compute
@@ -306,6 +309,11 @@ func runC19(ops []string) CaseResult {
 			bad = mt == nil || len(f) != 2 || e != nil
 		case "verifynil":
 			bad = mt == nil || len(f) != 2
+		case "badload":
+			_, e := strconv.Atoi(f[len(f)-1])
+			bad = mt == nil || len(f) != 2 || e != nil || atoi(f[1]) == len(leaves) || len(leaves) == 0
+		case "reload":
+			bad = mt == nil || len(f) != 1 || len(leaves) == 0
 		case "export":
 			bad = mt == nil
 		case "recompute":
@@ -409,6 +417,27 @@ func runC19(ops []string) CaseResult {
 				var o string
 				o, lv, root = computeOn(i, mt, leaves)
 				return o
+			case "badload":
+				m := atoi(f[1])
+				before := append([]string(nil), mt.GetTree()...)
+				err := mt.SetTree(m, append([]string(nil), before...))
+				tags["rejected-load-on-populated-object"] = true
+				if err == nil {
+					fail(i, "SetTree(%d) accepted the array of a tree of %d leaves", m, len(leaves))
+					return "ok"
+				}
+				// a rejected load changes nothing: array and root here, every path by the sweep that follows
+				if !c19EqStrs(mt.GetTree(), before) || mt.GetRoot() != root {
+					fail(i, "the rejected SetTree(%d) changed the tree array or the root", m)
+				}
+				return "err"
+			case "reload":
+				if err := mt.SetTree(len(leaves), append([]string(nil), mt.GetTree()...)); err != nil {
+					fail(i, "SetTree(%d) rejected the object's own array: %v", len(leaves), err)
+					return "err"
+				}
+				tags["reload-same-object"] = true
+				return "ok"
 			case "export":
 				t := mt.GetTree()
 				exports = append(exports, &c19Export{arr: t, n: len(leaves), leaves: append([]string(nil), leaves...), lv: lv, root: root,
@@ -637,6 +666,35 @@ func c19Body(r *rand.Rand, head, extra []string, n int, tag string, tier string)
 		ops = append(ops, "verifyall")
 	}
 	ops = append(ops, extra...)
+	// a REJECTED load on the populated object (leaf counts with fewer, equally many and more levels) changes
+	// nothing: the full path / verify sweep again, then once more after a successful load on the same object
+	sweep := func(full bool) {
+		ops = append(ops, "root", "allpaths", fmt.Sprintf("pathidx %d", n-1), fmt.Sprintf("pathidx %d", r.Intn(n)),
+			fmt.Sprintf("pathleaf %d", r.Intn(n)), "pathmissing "+tag+"y", fmt.Sprintf("offerrand %d q%d", r.Intn(n), r.Intn(1000)))
+		if full && n <= 120 {
+			ops = append(ops, "verifyall")
+		}
+	}
+	wrong := []int{2 * n, 1, 0, n + 1, n - 1, 1 << 40, -3, 4*n + 3, (n + 1) / 2}
+	first := true
+	for _, m := range wrong {
+		if m == n {
+			continue
+		}
+		ops = append(ops, fmt.Sprintf("badload %d", m))
+		if first || m == 1<<40 || m == 0 {
+			sweep(first)
+		}
+		first = false
+	}
+	sweep(false)
+	ops = append(ops, "reload")
+	for _, m := range []int{wrong[r.Intn(len(wrong))], 2*n + 1, 1} {
+		if m != n {
+			ops = append(ops, fmt.Sprintf("badload %d", m))
+		}
+	}
+	sweep(n <= 60)
 	// indices looked at one by one: all of them for small trees, else the ends, the level-boundary ones and a sample
 	var idxs []int
 	if n <= 40 {
